@@ -71,16 +71,17 @@ type Env struct {
 }
 
 type Adapter struct {
-	W        *world.W
-	C        Consts
-	K        crosschainkeeper.Keeper
-	storeKey storetypes.StoreKey
-	tok      string
-	base     int64 // real height of model height 0
-	oracle   *helpers.Signer
-	bridger  *helpers.Signer
-	relayer  *helpers.Signer
-	dest     string
+	W          *world.W
+	C          Consts
+	K          crosschainkeeper.Keeper
+	storeKey   storetypes.StoreKey
+	tok        string
+	base       int64 // real height of model height 0
+	oracle     *helpers.Signer
+	bridger    *helpers.Signer
+	relayer    *helpers.Signer
+	dest       string
+	otherDenom string
 }
 
 func must(err error) {
@@ -134,11 +135,20 @@ func New(t *testing.T, c Consts) *Adapter {
 	// FX previously bridged out and locked in the module: liquidity for deposits
 	must(w.App.BankKeeper.MintCoins(ctx, "mint", sdk.NewCoins(world.FX(1000))))
 	must(w.App.BankKeeper.SendCoinsFromModuleToModule(ctx, "mint", c.Chain, sdk.NewCoins(world.FX(1000))))
+	// a second bridged token of the same chain, held by every user (only ever offered as a fee for FX transfers)
+	other := world.DetExt(c.Chain + "/token/OTHER")
+	must(a.K.AddBridgeTokenExecuted(ctx, &types.MsgBridgeTokenClaim{ChainName: c.Chain, TokenContract: other, Name: "Other", Symbol: "OTH", Decimals: 18}))
+	a.otherDenom = types.NewBridgeDenom(c.Chain, other)
 	for _, u := range c.User {
 		w.Fund(ctx, a.user(u).AccAddress(), c.InitBal)
+		w.MintCoins(ctx, a.user(u).AccAddress(), sdk.NewCoin(a.otherDenom, unit.MulRaw(10)))
 	}
+	// fxcore's own height is far above every external height used: a timeout wrongly judged by
+	// fxcore's clock would fire immediately
+	w.Ctx = ctx.WithBlockHeight(1_000_000)
+	ctx = w.Ctx
 	a.base = ctx.BlockHeight()
-	env := Env{ExtH: 10, Queue: []Event{}, Xbt: fill(c.MaxBatch+1), Xcl: fill(c.MaxCall+1), Cobs: fill(c.MaxCall+1)}
+	env := Env{ExtH: 10, Queue: []Event{}, Xbt: fill(c.MaxBatch + 1), Xcl: fill(c.MaxCall + 1), Cobs: fill(c.MaxCall + 1)}
 	a.putEnv(ctx, &env)
 	return a
 }
@@ -197,8 +207,12 @@ func (a *Adapter) Apply(ctx sdk.Context, op graph.Op) (sdk.Context, string) {
 	case "Cancel":
 		err = w.Handle(ctx, &types.MsgCancelSendToExternal{ChainName: ch, Sender: a.user(op.Str("u")).AccAddress().String(), TransactionId: uint64(op.Int("id"))})
 	case "IncreaseFee":
+		fee := fx(op.Int("f"))
+		if op.Str("e") == "other" {
+			fee = sdk.NewCoin(a.otherDenom, unit.MulRaw(op.Int("f"))) // another bridged token of the same chain
+		}
 		err = w.Handle(ctx, &types.MsgIncreaseBridgeFee{ChainName: ch, Sender: a.user(op.Str("u")).AccAddress().String(), TransactionId: uint64(op.Int("id")),
-			AddBridgeFee: fx(op.Int("f"))})
+			AddBridgeFee: fee})
 	case "RequestBatch":
 		err = w.Handle(ctx, &types.MsgRequestBatch{ChainName: ch, Sender: a.bridger.AccAddress().String(), Denom: fxtypes.DefaultDenom,
 			MinimumFee: unit.MulRaw(op.Int("f")), FeeReceive: world.DetExt(ch + "/feereceive"), BaseFee: unit.MulRaw(op.Int("a"))})
